@@ -90,6 +90,7 @@ def main(argv=None):
   ap.add_argument("--only")
   ap.add_argument("--procs", type=int, default=int(os.environ.get("VERIF_PROCS", "16")))
   ap.add_argument("--no-evidence", action="store_true")
+  ap.add_argument("--verbose", "-v", action="store_true")
   a = ap.parse_args(argv)
   seed = int(os.environ.get("VERIF_SEED", "0") or 0)
   mod = _load(a.pid)
@@ -233,6 +234,10 @@ def report(a, mod, results, wall, seed):
   print("%s %s: tasks=%d paths=%d obligations=%d discharged=%d queries=%s solver=%.1fs witnesses=%d wall=%.1fs"
         % (pid, tier, len(results), agg["paths"], agg["obligations"], agg["discharged"],
            agg["q"], agg["solver_s"], agg["witnesses"], wall))
+  if a.verbose:
+    for r in sorted(results, key=lambda r: -r["wall_s"])[:25]:
+      print("   %7.1fs paths=%-6d obl=%-7d %s %s" % (r["wall_s"], r["paths"], r["obligations"], r["harness"],
+                                                  json.dumps(r["cfg"])))
   for l in lines: print(l)
   rc = 0
   if new_v: rc = 1
